@@ -169,6 +169,7 @@ fn sink_elem<T: Elem, Tr: ?Sized + TrX, MB: MX, V: any_vec::any_value::AnyValueM
         Sink::Drop => { drop(h); None }
         Sink::Downcast => { let v: T = h.downcast::<T>().expect("downcast to the real type failed"); let id = v.id(); let _w = elem::WindowOff::new(); drop(v); Some(id) }
         Sink::DowncastRef => { let id = h.downcast_ref::<T>().expect("downcast_ref failed").id(); drop(h); Some(id) }
+        Sink::DowncastUnchecked => { let v: T = unsafe { h.downcast_unchecked::<T>() }; let id = v.id(); let _w = elem::WindowOff::new(); drop(v); Some(id) }
         Sink::MutMoveB => {
             let mut h = h;
             let id = { let t = h.downcast_mut::<T>().expect("downcast_mut failed"); let _w = elem::WindowOff::new(); t.retag(); t.id() };
@@ -233,7 +234,7 @@ fn check_steps<T: Elem>(obs: &[StepObs], removed: &mut VecDeque<Mv>, pat: Pat, s
             (Some(_), None) => out.fail(Class::Iter, "not-fused", format!("step {i}: iterator returned an item after exhaustion")),
             (Some(seen), Some(w)) => {
                 if T::SIZE != 0 {
-                    if matches!(sink, Sink::Downcast | Sink::DowncastRef | Sink::SwapW | Sink::SwapRaw) {
+                    if matches!(sink, Sink::Downcast | Sink::DowncastRef | Sink::DowncastUnchecked | Sink::SwapW | Sink::SwapRaw) {
                         match seen { Some(id) if mv_match(w, *id) => {}, _ => out.fail(Class::Iter, "wrong-item", format!("step {i} ({}): yielded {seen:?}, model {w:?}", if pat.back(i) { "next_back" } else { "next" })) }
                     }
                 }
